@@ -57,12 +57,12 @@ pub open spec fn ep_rel(x: EnergyPerformance, y: EnergyPerformance, idx: Seq<int
     // the three renewable energy ratios are unchanged
     &&& rv(y.rer) == rv(x.rer) && rv(y.rer_onst) == rv(x.rer_onst) && rv(y.rer_nrb) == rv(x.rer_nrb)
 }
-pub proof fn lemma_ep_carrier(comps: Components, comps2: Components, w: Seq<Factor>, k_exp: f32, lm: bool, x: EnergyPerformance, y: EnergyPerformance,
+pub proof fn lemma_ep_carrier(comps: Components, comps2: Components, k_exp: f32, lm: bool, x: EnergyPerformance, y: EnergyPerformance,
                               idx: Seq<int>, k: real, ct: real, c: Carrier)
     requires
         k > 0real, ct > 0real, inputs_rel(comps.data@, comps2.data@, idx, k),
-        lay_sums(idx, nsteps(comps.data@) as int, k, ct), lay_sums_r(idx, nsteps(comps.data@) as int, k, ct),
-        cgn_added(w, x.wfactors.wdata@, comps.data@), cgn_added(w, y.wfactors.wdata@, comps2.data@),
+        lay_sums(idx, nsteps(comps.data@) as int, k, ct),
+        we_lookups_same(x.wfactors.wdata@, y.wfactors.wdata@, c, x.balance_cr@[c].exp, x.balance_cr@[c].del),
         in_avail(comps.data@, c), x.balance_cr@.contains_key(c), y.balance_cr@.contains_key(c),
         bfc_post(comps.data@, x.wfactors.wdata@, c, rv(k_exp), lm, x.balance_cr@[c]),
         bfc_post(comps2.data@, y.wfactors.wdata@, c, rv(k_exp), lm, y.balance_cr@[c]),
@@ -96,16 +96,6 @@ pub proof fn lemma_ep_carrier(comps: Components, comps2: Components, w: Seq<Fact
         lemma_prod_in_dom(b, lm, i2);
     }
     assert(carrier_hyp(a, b, lm, idx, k));
-    // the factor sets of the two evaluations read the same
-    assert forall|i2: int| 0 <= i2 < idx.len() implies 0 <= #[trigger] idx[i2] < n && acc_rel(cs, cs2, idx[i2], i2, k) by {
-        assert(val_rel(cs, cs2, idx[i2], i2, k));
-        lemma_acc_rel(cs, cs2, idx[i2], i2, k);
-    }
-    assert forall|s: Sel| #[trigger] acc_an(cs2, s, n2 as int) == ct * acc_an(cs, s, n as int) by {
-        lemma_acc_an_rel(cs, cs2, s, idx, n as int, k, ct);
-    }
-    lemma_sel_same(cs, cs2);
-    lemma_cgn_added_same(w, x.wfactors.wdata@, y.wfactors.wdata@, cs, cs2, ct, c);
     thm_carrier(a, b, lm, idx, k, ct, x.wfactors.wdata@, y.wfactors.wdata@, c, rv(k_exp), Ok(bx.we), Ok(by.we));
     assert(steps_rel(run_of(bx), run_of(by), idx, k)) by {
         assert forall|i2: int| 0 <= i2 < idx.len() implies 0 <= #[trigger] idx[i2] < run_n(run_of(bx)) && step_rel_r(run_of(bx), run_of(by), idx[i2], i2, k) by {
@@ -115,19 +105,46 @@ pub proof fn lemma_ep_carrier(comps: Components, comps2: Components, w: Seq<Fact
     assert(annual_rel(run_of(bx), run_of(by), ct)) by { assert(annual_rel(a, b, ct)); }
 }
 
+/// for every carrier with a balance the two factor sets read the same at the keys the weighting step of that carrier looks up
+pub open spec fn all_lookups_same(x: EnergyPerformance, y: EnergyPerformance) -> bool {
+    forall|c: Carrier| x.balance_cr@.contains_key(c) ==> we_lookups_same(x.wfactors.wdata@, y.wfactors.wdata@, c, (#[trigger] x.balance_cr@[c]).exp, x.balance_cr@[c].del)
+}
+pub proof fn lemma_ep_lookups_cgn(comps: Components, comps2: Components, w: Seq<Factor>, x: EnergyPerformance, y: EnergyPerformance, idx: Seq<int>, k: real, ct: real)
+    requires
+        k > 0real, ct > 0real, inputs_rel(comps.data@, comps2.data@, idx, k), lay_sums_r(idx, nsteps(comps.data@) as int, k, ct),
+        cgn_added(w, x.wfactors.wdata@, comps.data@), cgn_added(w, y.wfactors.wdata@, comps2.data@),
+    ensures all_lookups_same(x, y),
+{
+    let cs = comps.data@; let cs2 = comps2.data@;
+    let n = nsteps(cs); let n2 = nsteps(cs2);
+    assert forall|i2: int| 0 <= i2 < idx.len() implies 0 <= #[trigger] idx[i2] < n && acc_rel(cs, cs2, idx[i2], i2, k) by {
+        assert(val_rel(cs, cs2, idx[i2], i2, k));
+        lemma_acc_rel(cs, cs2, idx[i2], i2, k);
+    }
+    assert forall|s: Sel| #[trigger] acc_an(cs2, s, n2 as int) == ct * acc_an(cs, s, n as int) by {
+        lemma_acc_an_rel(cs, cs2, s, idx, n as int, k, ct);
+    }
+    lemma_sel_same(cs, cs2);
+    assert forall|c: Carrier| x.balance_cr@.contains_key(c) implies we_lookups_same(x.wfactors.wdata@, y.wfactors.wdata@, c, (#[trigger] x.balance_cr@[c]).exp, x.balance_cr@[c].del) by {
+        lemma_cgn_added_same(w, x.wfactors.wdata@, y.wfactors.wdata@, cs, cs2, ct, c);
+        lemma_fp_same_lookups(x.wfactors.wdata@, y.wfactors.wdata@, c, x.balance_cr@[c].exp, x.balance_cr@[c].del);
+    }
+}
 pub open spec fn bcr_steps(bcr: Map<Carrier, BalanceCarrier>, bcr2: Map<Carrier, BalanceCarrier>, idx: Seq<int>, k: real) -> bool {
     forall|c: Carrier| bcr.contains_key(c) ==> steps_rel(run_of(#[trigger] bcr[c]), run_of(bcr2[c]), idx, k)
 }
+/// what lemma_ep_bcr needs of the two contracts (extracted from ep_post so that its proof does not carry the whole bundle)
+pub open spec fn ep_carriers_ok(comps: Components, k_exp: f32, lm: bool, x: EnergyPerformance) -> bool {
+    &&& (forall|c: Carrier| #[trigger] x.balance_cr@.contains_key(c) == in_avail(comps.data@, c))
+    &&& (forall|c: Carrier| x.balance_cr@.contains_key(c) ==> bfc_post(comps.data@, x.wfactors.wdata@, c, rv(k_exp), lm, #[trigger] x.balance_cr@[c]))
+}
 #[verifier::spinoff_prover]
-pub proof fn lemma_ep_bcr(comps: Components, comps2: Components, w: Seq<Factor>, k_exp: f32, area: f32, area2: f32, lm: bool,
-                    r: Result<EnergyPerformance>, r2: Result<EnergyPerformance>, idx: Seq<int>, k: real, ct: real)
+pub proof fn lemma_ep_bcr(comps: Components, comps2: Components, k_exp: f32, lm: bool, x: EnergyPerformance, y: EnergyPerformance, idx: Seq<int>, k: real, ct: real)
     requires
-        k > 0real, ct > 0real, inputs_rel(comps.data@, comps2.data@, idx, k),
-        lay_sums(idx, nsteps(comps.data@) as int, k, ct), lay_sums_r(idx, nsteps(comps.data@) as int, k, ct),
-        ep_post(comps, w, k_exp, area, lm, r), ep_post(comps2, w, k_exp, area2, lm, r2), r is Ok, r2 is Ok,
-    ensures bcr_rel(r->Ok_0.balance_cr@, r2->Ok_0.balance_cr@, ct), bcr_steps(r->Ok_0.balance_cr@, r2->Ok_0.balance_cr@, idx, k),
+        k > 0real, ct > 0real, inputs_rel(comps.data@, comps2.data@, idx, k), lay_sums(idx, nsteps(comps.data@) as int, k, ct),
+        ep_carriers_ok(comps, k_exp, lm, x), ep_carriers_ok(comps2, k_exp, lm, y), all_lookups_same(x, y),
+    ensures bcr_rel(x.balance_cr@, y.balance_cr@, ct), bcr_steps(x.balance_cr@, y.balance_cr@, idx, k),
 {
-    let x = r->Ok_0; let y = r2->Ok_0;
     let cs = comps.data@; let cs2 = comps2.data@;
     let bcr = x.balance_cr@; let bcr2 = y.balance_cr@;
     assert forall|c: Carrier| bcr.contains_key(c) == bcr2.contains_key(c) by { lemma_avail_tags(cs, cs2, c); }
@@ -138,7 +155,7 @@ pub proof fn lemma_ep_bcr(comps: Components, comps2: Components, w: Seq<Factor>,
             && bcr2[c].used.epus_by_srv_an@.dom() =~= bcr[c].used.epus_by_srv_an@.dom()
             && bcr[c].we.a_by_srv@.dom() =~= bcr[c].used.epus_by_srv_an@.dom() && bcr[c].we.b_by_srv@.dom() =~= bcr[c].used.epus_by_srv_an@.dom() by {
         assert(bcr2.contains_key(c));
-        lemma_ep_carrier(comps, comps2, w, k_exp, lm, x, y, idx, k, ct, c);
+        lemma_ep_carrier(comps, comps2, k_exp, lm, x, y, idx, k, ct, c);
     }
 }
 pub proof fn lemma_ep_building(bcr: Map<Carrier, BalanceCarrier>, bcr2: Map<Carrier, BalanceCarrier>, comps: Components, comps2: Components, bx: Balance, by: Balance, ct: real)
@@ -199,7 +216,8 @@ pub proof fn thm_ep(comps: Components, comps2: Components, w: Seq<Factor>, k_exp
     ensures ep_rel(r->Ok_0, r2->Ok_0, idx, k, ct),
 {
     let x = r->Ok_0; let y = r2->Ok_0;
-    lemma_ep_bcr(comps, comps2, w, k_exp, area, area2, lm, r, r2, idx, k, ct);
+    lemma_ep_lookups_cgn(comps, comps2, w, x, y, idx, k, ct);
+    lemma_ep_bcr(comps, comps2, k_exp, lm, x, y, idx, k, ct);
     lemma_ep_building(x.balance_cr@, y.balance_cr@, comps, comps2, x.balance, y.balance, ct);
     lemma_ep_rer(x.balance_cr@, y.balance_cr@, x.balance, y.balance, rv(k_exp), ct);
 }
